@@ -303,6 +303,14 @@ def verify(env, c, thorough=False):
             I.depth = 0
             I.top_old = old
             result = I.call_func(fv, args, kwargs)
+            if isinstance(c.returns, sorts.RecList) and isinstance(result, list) and all(isinstance(x, Obj) for x in result):
+                # a concrete list of records where the contract speaks about a record list: same value, array view
+                # (so that clauses may index it with symbolic positions)
+                rl = sorts.build(I, c.returns, 'ret_view')
+                for i_, x in enumerate(result):
+                    lib.reclist_store(I, rl, z3.IntVal(i_), x)
+                rl.n = len(result)
+                result = rl
         except PyExc as e:
             raised = e
         except Unsupported as e:
@@ -312,6 +320,11 @@ def verify(env, c, thorough=False):
         res.notes.extend(n for n in p.notes if n not in res.notes)
         post = Frame(fi, fi.module, dict(fr_locals), cls=fi.cls)
         post.locals.update(getattr(I, 'top_ghosts', None) or {})
+        # a path that leaves before the loop that declares a ghost witness: the witness is arbitrary on that path
+        for spec in c.loops.values():
+            for gname, gsort in getattr(spec, 'ghost', {}).items():
+                if gname not in post.locals:
+                    post.locals[gname] = sorts.build(I, gsort, 'ghost_' + gname)
         post.locals['__old__'] = old
         try:
             if raised is not None:
